@@ -752,11 +752,17 @@ theorem find_congr_mem {α} (l : List α) (p q : α → Bool) (h : ∀ a ∈ l, 
     simp only [List.find?_cons, h a (by simp)]
     rw [ih (fun a' ha' => h a' (by simp [ha']))]
 
-/-! ### assembly -/
-
-theorem core_eq_xml (cls : String → Bool) (d : Doc) (h : Layout cls d) :
-    ∃ m, finishCore (coreRun (render cls d)) = .ok m ∧ xmlView d = some m := by
-  obtain ⟨hmz1, hin1, hmzN, hinN, hgok, hsne, hsok, hpne, hpok⟩ := h
+/-- the state of the loops after everything before `<run>`: no error, back at the top level, both
+array groups and every `<scanSettings>` read — and the XML parser's queries find the same -/
+theorem head_run (cls : String → Bool) (d : Doc) (h : LayoutCore cls d) :
+    ∃ pgm pgi sc0 screst gm gi st0 strest,
+      runC Core.init (renderHead cls d)
+        = { Core.init with mz := some pgm, inten := some pgi, scans := sc0 :: screst } ∧
+      d.groups.find? (fun g => hasAcc accMzArray g.items) = some gm ∧
+      d.groups.find? (fun g => hasAcc accIntensityArray g.items) = some gi ∧
+      xmlGroup gm = some pgm ∧ xmlGroup gi = some pgi ∧
+      d.settings = st0 :: strest ∧ xmlSettings st0 = some sc0 := by
+  obtain ⟨hmz1, hin1, hmzN, hinN, hgok, hsne, hsok, _, _⟩ := h
   -- groups
   have hgfast : ∀ g ∈ d.groups, g.id = "mzArray" ∨ g.id = "intensities" → ∃ pg, fastGroup cls g = .ok pg := by
     intro g hg hid
@@ -796,17 +802,6 @@ theorem core_eq_xml (cls : String → Bool) (d : Doc) (h : Layout cls d) :
         cases hr : List.mapM xmlSettings strest with
         | none => simp [hr] at hscs2
         | some vs => simp [hr] at hscs2; rw [hscs2.1]
-  -- spectra
-  obtain ⟨sps, hsps1, hsps2⟩ := forall₂_mapM (FastSpec cls) xmlSpec d.spectra
-    (fun s hs => spec_agree cls s (hpok s hs))
-  obtain ⟨s0, srest, hsp⟩ : ∃ s0 srest, d.spectra = s0 :: srest := by
-    cases hs : d.spectra with
-    | nil => simp [hs] at hpne
-    | cons a r => exact ⟨a, r, rfl⟩
-  obtain ⟨x0, xs, hxs, hx0, hxrest⟩ : ∃ x0 xs, sps = x0 :: xs ∧ FastSpec cls s0 x0 ∧ List.Forall₂ (FastSpec cls) srest xs := by
-    rw [hsp] at hsps1
-    cases hsps1 with
-    | cons h1 h2 => exact ⟨_, _, rfl, h1, h2⟩
   -- the machine
   have hmid : ∀ c : Core, c.err = none → c.mode = .top → c.mz = none → c.inten = none →
       runC c (if d.settingsFirst
@@ -827,31 +822,64 @@ theorem core_eq_xml (cls : String → Bool) (d : Doc) (h : Layout cls d) :
       simp only [hp1, hp2]
       rw [run_top_inert { c with mz := some pgm, inten := some pgi } hc hm _ (sects_inert cls d.mid1)]
       rw [run_renderSettingsList cls d scs { c with mz := some pgm, inten := some pgi } hc hm hscs1]
+  refine ⟨pgm, pgi, sc0, screst, gm, gi, st0, strest, ?_, hxm, hxi, hpgm2, hpgi2, hst, hsc0⟩
+  unfold renderHead
+  generalize hM : (if d.settingsFirst
+      then renderSettingsList cls d ++ d.mid1.flatMap (renderSect cls) ++ renderGroups cls d
+      else renderGroups cls d ++ d.mid1.flatMap (renderSect cls) ++ renderSettingsList cls d) = M at hmid ⊢
+  simp only [runC_append]
+  have e1 : runC Core.init (if d.decl then [Line.misc] else []) = Core.init := by
+    apply run_top_inert _ rfl rfl
+    intro l hl; split at hl <;> simp at hl; subst hl; rfl
+  have e2 : runC Core.init [Line.opn .other ""] = Core.init := by
+    apply run_top_inert _ rfl rfl
+    intro l hl; simp at hl; subst hl; rfl
+  rw [e1, e2, run_top_inert _ rfl rfl _ (sects_inert cls d.pre), hmid Core.init rfl rfl rfl rfl]
+  rw [run_top_inert _ rfl rfl _ (sects_inert cls d.mid2)]
+  simp [Core.init, hsc]
+
+/-- under the layout every `<spectrum>` is read alike by both parsers -/
+theorem spectra_agree (cls : String → Bool) (d : Doc) (h : LayoutCore cls d) :
+    ∃ s0 srest x0 xs, d.spectra = s0 :: srest ∧ FastSpec cls s0 x0 ∧ List.Forall₂ (FastSpec cls) srest xs ∧
+      d.spectra.mapM xmlSpec = some (x0 :: xs) := by
+  obtain ⟨_, _, _, _, _, _, _, hpne, hpok⟩ := h
+  obtain ⟨sps, hsps1, hsps2⟩ := forall₂_mapM (FastSpec cls) xmlSpec d.spectra
+    (fun s hs => spec_agree cls s (hpok s hs))
+  obtain ⟨s0, srest, hsp⟩ : ∃ s0 srest, d.spectra = s0 :: srest := by
+    cases hs : d.spectra with
+    | nil => simp [hs] at hpne
+    | cons a r => exact ⟨a, r, rfl⟩
+  rw [hsp] at hsps1
+  cases hsps1 with
+  | cons h1 h2 => exact ⟨s0, srest, _, _, hsp, h1, h2, hsps2⟩
+
+theorem tail_inert (cls : String → Bool) (d : Doc) : ∀ l ∈ renderTail cls d, topInert l = true := by
+  intro l hl
+  unfold renderTail at hl
+  rw [List.mem_append] at hl
+  rcases hl with hl | hl
+  · exact sects_inert cls d.post l hl
+  · simp at hl; subst hl; rfl
+
+/-! ### assembly -/
+
+theorem core_eq_xml (cls : String → Bool) (d : Doc) (h : LayoutCore cls d) :
+    ∃ m, finishCore (coreRun (render cls d)) = .ok m ∧ xmlView d = some m := by
+  obtain ⟨pgm, pgi, sc0, screst, gm, gi, st0, strest, hhead, hxm, hxi, hpgm2, hpgi2, hst, hsc0⟩ := head_run cls d h
+  obtain ⟨s0, srest, x0, xs, hsp, hx0, hxrest, hsps2⟩ := spectra_agree cls d h
   have hrun : coreRun (render cls d)
-      = { Core.init with mz := some pgm, inten := some pgi, scans := scs, spectra := x0 :: xs } := by
+      = { Core.init with mz := some pgm, inten := some pgi, scans := sc0 :: screst, spectra := x0 :: xs } := by
     unfold coreRun render
     change runC Core.init _ = _
-    generalize hM : (if d.settingsFirst
-        then renderSettingsList cls d ++ d.mid1.flatMap (renderSect cls) ++ renderGroups cls d
-        else renderGroups cls d ++ d.mid1.flatMap (renderSect cls) ++ renderSettingsList cls d) = M at hmid ⊢
     simp only [runC_append]
-    have e1 : runC Core.init (if d.decl then [Line.misc] else []) = Core.init := by
-      apply run_top_inert _ rfl rfl
-      intro l hl; split at hl <;> simp at hl; subst hl; rfl
-    have e2 : runC Core.init [Line.opn .other ""] = Core.init := by
-      apply run_top_inert _ rfl rfl
-      intro l hl; simp at hl; subst hl; rfl
-    rw [e1, e2, run_top_inert _ rfl rfl _ (sects_inert cls d.pre), hmid Core.init rfl rfl rfl rfl]
-    rw [run_top_inert _ rfl rfl _ (sects_inert cls d.mid2)]
+    rw [hhead]
     rw [run_renderSpectra cls d s0 srest x0 xs _ rfl rfl hsp hx0 hxrest]
-    rw [run_top_inert _ rfl rfl _ (sects_inert cls d.post)]
-    rw [run_top_inert _ rfl rfl]
-    · simp [Core.init]
-    · intro l hl; simp at hl; subst hl; rfl
+    rw [run_top_inert _ rfl rfl _ (tail_inert cls d)]
+    simp [Core.init]
   refine ⟨{ scan := sc0, mz := pgm, inten := pgi, spectra := x0 :: xs }, ?_, ?_⟩
   · rw [hrun]
-    simp [finishCore, Core.init, hsc]
-  · simp [xmlView, hxm, hxi, hsps2, hxs, hst, hsc0, hpgm2, hpgi2]
+    simp [finishCore, Core.init]
+  · simp [xmlView, hxm, hxi, hsps2, hst, hsc0, hpgm2, hpgi2]
 
 /-! ### positions and the callback -/
 
